@@ -373,6 +373,40 @@ def _hash(ctx, methods):
                       '__hash__ is not invariant under zero-padding although __eq__ is: %s' % bad_forms[rv],
                       file=F, line=fn.lineno, engine='E9')
         return
+    # hash precomputed elsewhere: return self.<attr>
+    if len(body) == 1 and isinstance(ret.value, ast.Attribute) and norm(ret.value.value) == s:
+        attr = ret.value.attr
+        cls = fn._parent if isinstance(getattr(fn, '_parent', None), ast.ClassDef) else None
+        stores = []
+        if cls is not None:
+            for n in ast.walk(cls):
+                if isinstance(n, ast.Assign) and any(norm(t).endswith('.%s' % attr) for t in n.targets):
+                    stores.append(n)
+        textual = []
+        for st in stores:
+            v = st.value
+            if norm(v).endswith('.%s' % attr):
+                continue            # clone path copies the value
+            # string operations on the matched text?
+            for c in ast.walk(v):
+                if isinstance(c, ast.Call) and isinstance(c.func, ast.Attribute) and c.func.attr in (
+                        'rstrip', 'strip', 'lstrip', 'lower', 'upper', 'replace', 'split', 'join', 'format'):
+                    textual.append((st, c))
+                if isinstance(c, ast.Call) and norm(c.func) in ('str', 'repr'):
+                    textual.append((st, c))
+                if isinstance(c, ast.Name) and c.id in ('ver_str',):
+                    textual.append((st, c))
+        if textual:
+            st, c = textual[0]
+            ctx.violation('C18.D3', '%s::Version.__hash__' % F, norm(st),
+                          "Version('03.0') == Version('3.0') (groups are compared as ints) but their hashes differ: the "
+                          "hash is taken from the spelling (`%s`), so a leading zero or an empty group changes it; "
+                          "Version('03.0') is not found in a set holding Version('3.0')" % norm(c),
+                          '__hash__ returns a value precomputed from the version *text* rather than from the numeric groups '
+                          '== compares', file=F, line=st.lineno, engine='E9')
+            return
+        ctx.error('C18.D3', '__hash__ returns self.%s, whose computation is not recognised' % attr)
+        return
     ctx.error('C18.D3', '__hash__ has an unrecognised form: %r' % text)
 
 
